@@ -198,16 +198,83 @@ def gen_decimal_places() -> str:
     return "\n".join(lines)
 
 
+# ----------------------------------------------------------------------------- solver configuration validators (`__post_init__`)
+
+CFG_FIELDS = {"gamma": "c.gamma", "epsilon": "c.eps", "max_batch_size": "c.maxbs", "checkpoint_frequency": "c.f", "max_checkpoints": "c.m",
+              "verbose": "c.verbose", "period": "c.period", "max_eval_iter": "c.budget"}
+VALIDATORS = [("vi", "solvers/value_iteration.py", "ValueIterationConfig"), ("pi", "solvers/policy_iteration.py", "PolicyIterationConfig"),
+              ("rvi", "solvers/relative_value_iteration.py", "RelativeValueIterationConfig"),
+              ("periodic", "solvers/periodic_value_iteration.py", "PeriodicValueIterationConfig"),
+              ("semi", "solvers/semi_async_value_iteration.py", "SemiAsyncValueIterationConfig")]
+PROBLEM_TEST = "self.problem is not None and (not isinstance(self.problem, ProblemConfig))"
+
+
+def vterm(e: ast.AST) -> str:
+    if isinstance(e, ast.Attribute) and isinstance(e.value, ast.Name) and e.value.id == "self" and e.attr in CFG_FIELDS:
+        return CFG_FIELDS[e.attr]
+    if isinstance(e, ast.Constant) and isinstance(e.value, (int, float)) and not isinstance(e.value, bool) and float(e.value).is_integer():
+        return str(int(e.value))
+    raise Untranslatable(f"validator term `{ast.unparse(e)}`")
+
+
+def vcond(t: ast.AST) -> str:
+    src = ast.unparse(t)
+    if src == PROBLEM_TEST:
+        return "c.problemOk = false"
+    if src in ("self.convergence_test not in ['span', 'max_diff']", 'self.convergence_test not in ["span", "max_diff"]'):
+        return "c.testOk = false"
+    if isinstance(t, ast.UnaryOp) and isinstance(t.op, ast.Not):
+        return f"¬ ({vcond(t.operand)})"
+    if isinstance(t, ast.BoolOp):
+        return "(" + (" ∧ " if isinstance(t.op, ast.And) else " ∨ ").join(vcond(v) for v in t.values) + ")"
+    if isinstance(t, ast.Compare):
+        ops = {ast.Eq: "=", ast.NotEq: "≠", ast.Lt: "<", ast.LtE: "≤", ast.Gt: ">", ast.GtE: "≥"}
+        terms = [t.left] + list(t.comparators)
+        parts = []
+        for a, op, b in zip(terms, t.ops, terms[1:]):
+            if type(op) not in ops:
+                raise Untranslatable(f"validator comparison `{src}`")
+            parts.append(f"{vterm(a)} {ops[type(op)]} {vterm(b)}")
+        return parts[0] if len(parts) == 1 else "(" + " ∧ ".join(parts) + ")"
+    raise Untranslatable(f"validator condition `{src}`")
+
+
+def gen_validators() -> str:
+    out = []
+    for kind, path, cls in VALIDATORS:
+        f = find_func(ast.parse((REPO / "src/mdpax" / path).read_text()), cls, "__post_init__")
+        lines = [f"/-- `{cls}.__post_init__`: the checks in source order -/", f"def validate_{kind} (c : SolverCfg) : Except CfgErr Unit := do"]
+        n = 0
+        for st in f.body:
+            if is_doc_or_log(st):
+                continue
+            if not (isinstance(st, ast.If) and not st.orelse and len(st.body) == 1 and isinstance(st.body[0], ast.Raise)):
+                raise Untranslatable(f"{cls}.__post_init__: statement `{ast.unparse(st)[:60]}` is not `if …: raise …`")
+            exc = st.body[0].exc
+            ename = exc.func.id if isinstance(exc, ast.Call) and isinstance(exc.func, ast.Name) else None
+            if ename not in ("ValueError", "TypeError"):
+                raise Untranslatable(f"{cls}.__post_init__ raises `{ast.unparse(exc)[:40]}`")
+            lines.append(f"  raiseIf ({vcond(st.test)}) .{'valueError' if ename == 'ValueError' else 'typeError'}")
+            n += 1
+        if n == 0:
+            raise Untranslatable(f"{cls}.__post_init__ has no checks")
+        out.append("\n".join(lines))
+    return "\n\n".join(out)
+
+
 HEADER = """/- GENERATED by harness/translate.py from /repo's Python source on every run — do not edit.
-   Source: src/mdpax/utils/batch_processing.py (BatchProcessor.__init__), src/mdpax/utils/logging.py (get_convergence_format). -/
+   Source: src/mdpax/utils/batch_processing.py (BatchProcessor.__init__), src/mdpax/utils/logging.py (get_convergence_format),
+   src/mdpax/solvers/*.py (the five solver configuration validators). -/
+import MdpaxV.Model.Config
 namespace MdpaxV.Gen
+open MdpaxV
 
 """
 
 
 def generate() -> tuple[bool, str]:
     """(re)write the generated module; returns (changed, text).  Raises Untranslatable."""
-    text = HEADER + gen_batch_init() + "\n\n" + gen_decimal_places() + "\n\nend MdpaxV.Gen\n"
+    text = HEADER + gen_batch_init() + "\n\n" + gen_decimal_places() + "\n\n" + gen_validators() + "\n\nend MdpaxV.Gen\n"
     old = OUT.read_text() if OUT.exists() else None
     if old != text:
         OUT.parent.mkdir(parents=True, exist_ok=True)
